@@ -109,6 +109,44 @@ Theorem C14_no_access_after_unmap_partial : forall sch, forallb quiet_label sch 
 Proof. exact no_fault_without_inflight. Qed.
 Print Assumptions C14_no_access_after_unmap_partial.
 
+(* OpenStream racing Close / peer death (OpenStream = check step + registration step; the cleanup posted
+   by Close is its own step and drops the stream table): with the repaired OpenStream NO schedule makes a
+   call panic — no hypothesis on the interleaving *)
+Theorem C14_open_after_close_safe : forall sch, panics (orun true sch oinit) = O.
+Proof. exact open_after_close_safe. Qed.
+Print Assumptions C14_open_after_close_safe.
+
+(* ... a registration that finds the table dropped returns the shutdown error and changes nothing else;
+   a check after shutdown refuses at once *)
+Theorem C14_open_after_cleanup_returns_error : forall w i s op',
+  remove_one i (opening w) = Some op' -> nth_error (ss (ob w)) i = Some s -> cleaned s = true ->
+  let w' := ostep true w (OReg i) in
+  ob w' = ob w /\ late w' = late w /\ open_errs w' = S (open_errs w) /\ panics w' = panics w /\ opening w' = op'.
+Proof. exact open_reg_on_dropped_table. Qed.
+Print Assumptions C14_open_after_cleanup_returns_error.
+
+(* ... a stream registered between Close's notification loop and the cleanup is closed by the cleanup:
+   no late stream belongs to a session whose table was dropped; and the base world under the layer still
+   satisfies WInv, so every theorem above applies to it *)
+Theorem C14_late_streams_closed_by_cleanup : forall fixed sch j,
+  In j (late (orun fixed sch oinit)) -> table_dropped (ob (orun fixed sch oinit)) j = false.
+Proof. exact late_streams_closed_by_cleanup. Qed.
+Print Assumptions C14_late_streams_closed_by_cleanup.
+Theorem C14_open_layer_keeps_invariant : forall fixed sch, WInv (ob (orun fixed sch oinit)).
+Proof. intros fixed sch. exact (ob_winv fixed sch oinit winv_init). Qed.
+Print Assumptions C14_open_layer_keeps_invariant.
+
+(* regression: the OpenStream before the repair (`fixed = false`) — the statement "no call panics" is
+   false of it; witness: check, Close, cleanup, registration => assignment to entry in nil map
+   (reproduced on the real code by the harness scenario openstream-racing-close) *)
+Definition C14_open_after_close_unrepaired_full : Prop := forall sch, panics (orun false sch oinit) = O.
+Theorem C14_open_after_close_unrepaired_refuted : ~ C14_open_after_close_unrepaired_full.
+Proof. exact open_racing_close_unrepaired_panics. Qed.
+Print Assumptions C14_open_after_close_unrepaired_refuted.
+Example C14_example_open_race_repaired :
+  let w := orun true open_race_witness oinit in panics w = O /\ open_errs w = 1%nat /\ opening w = [] /\ late w = [].
+Proof. exact open_race_witness_repaired. Qed.
+
 (* non-vacuity: two sessions share manager 7; the first is closed twice and by the remote side, the
    second once; the manager is unmapped exactly once, by the last one *)
 Example C14_example_run :
